@@ -83,6 +83,10 @@ class Pre(object):
 
 
 # ====================================================================== canonical settings state
+import re
+_IDNUM = re.compile(r'\d{7,}')
+
+
 def canon(s, tags):
     """every entry of solver.__dict__ as hashable data; unknown objects raise (nothing dropped silently)"""
     return tuple((k, _cv(v, tags, 0)) for k, v in sorted(s.__dict__.items()))
@@ -119,7 +123,8 @@ def _cv(v, tags, depth):
         cells = ()
         if v.__closure__:
             cells = tuple(_cell(c, tags, depth + 1) for c in v.__closure__)
-        return ('fn', getattr(v, '__module__', None), getattr(v, '__qualname__', None), code.co_firstlineno,
+        # generated constraint solvers are named solver_<id(...)>: the id is not part of the state
+        return ('fn', getattr(v, '__module__', None), _IDNUM.sub('#', getattr(v, '__qualname__', None) or ''), code.co_firstlineno,
                 digest(code.co_code), cells, v.__doc__ if isinstance(v.__doc__, str) and len(v.__doc__) < 200 else None)
     if isinstance(v, type) or type(v).__name__ in ('builtin_function_or_method', 'method', 'module'):
         return ('obj', repr(v))
@@ -172,7 +177,7 @@ def _apply_call(s, name, v, objs):
     elif name == 'reducer':
         s.SetReducer(solverlab.REDUCERS[v.get('reducer', 'sum')], arraylike=True)
     elif name == 'savefreq':
-        s.SetSaveFrequency(2, objs['savefile'])
+        s.SetSaveFrequency(3, objs['savefile'])
     else:
         raise KeyError(name)
 
@@ -353,10 +358,16 @@ def compare_runs(v, seq1, seq2, mid, T, part, savefile=None, cache=None):
             field, text = _first_traj_diff(f1['raw_traj'], f2['raw_traj'])
         else:
             field, text = 'random generator', 'the owned random generator is in a different state (%s)' % clause
-        T.violate({'part': part, 'clause': clause, 'solver': v['solver'], 'calls': pair, 'field': field},
+        T.violate({'part': part, 'clause': clause, 'solver': v['solver'], 'calls': pair, 'field': field, 'ranges_mode': _ranges_mode(v)},
                   {'part': 'A', 'variant': v, 'seq1': list(seq1), 'seq2': list(seq2), 'mid': mid},
                   '%s: order %s vs %s: %s [variant %s]' % (v['solver'], '.'.join(seq1), '.'.join(seq2), text, _short(v)))
     return False
+
+
+def _ranges_mode(v):
+    if v.get('clip') is not None:
+        return 'clip=%s' % v['clip']
+    return 'tight=%s' % v['tight'] if v.get('tight') is not None else 'default'
 
 
 def _swapped(seq1, seq2):
@@ -466,6 +477,9 @@ def variants(ctx):
     return {
         'A1': {'name': 'A1', 'cost': 'sphere', 'init': 'point', 'x0': [3.0, -2.0], 'box': 'unit', 'con': 'clamp/pure',
                'pen': 'quad', 'term': 'never', 'limits': [4, None], 'seed': 11 + sd},
+        # Powell spends ~150 evaluations per iteration: the quick lattice stops it after 2 generations (Steps 4-6 return the stop message)
+        'A1p': {'name': 'A1p', 'cost': 'sphere', 'init': 'point', 'x0': [3.0, -2.0], 'box': 'unit', 'con': 'clamp/pure',
+                'pen': 'quad', 'term': 'never', 'limits': [2, None], 'seed': 11 + sd},
         'A2': {'name': 'A2', 'cost': 'steps', 'init': 'random', 'initbox': 'unit', 'box': 'shift', 'clip': True,
                'con': 'tie/inplace', 'pen': 'ramp', 'term': 'cog1', 'limits': [None, 9], 'seed': 23 + sd},
         # thorough: array-valued cost + reducer
@@ -484,7 +498,7 @@ def de2_cfgs(ctx):
     sd = ctx.seed
     out = [
         {'name': 'B2', 'cost': 'steps', 'seed': 102 + 7 * sd, 'initbox': 'unit', 'box': 'shift', 'con': 'clamp/inplace', 'pen': 'quad'},
-        {'name': 'B3', 'cost': 'infwall', 'seed': 103 + 7 * sd, 'initbox': 'unit', 'box': 'unit', 'con': 'tie/pure', 'pen': 'ramp',
+        {'name': 'B3', 'cost': 'infwall', 'seed': 103 + 7 * sd, 'initbox': 'shift', 'box': 'shift', 'con': 'tie/pure', 'pen': 'ramp',
          'strategy': 'Rand1Bin'},
     ]
     if ctx.thorough:
@@ -660,7 +674,6 @@ def ens_build(cfg, kind, nested, mapper):
 
 
 def _member_obs(m):
-    raw = m._cost[1]
     return (m.id, _vec(m.bestSolution), _fy(m.bestEnergy), int(m.evaluations), int(m.generations))
 
 
@@ -877,13 +890,20 @@ def plan(ctx):
     full_calls = CALLS_T[:-1] if th else CALLS_Q          # thorough: + reducer (10 calls); savefreq handled below
     lattice = []
     for solver in solverlab.SOLVERS:
-        names = ['A1', 'A2', 'A3'] if th else (['A1', 'A2'] if solver == 'DE2' else ['A1'])
+        if th:      # 10-call lattices: A3 (array cost + reducer) on every solver, A1 / A2 on two solvers each (quick has A1 on all at 9 calls)
+            names = ['A3'] + (['A1'] if solver in ('Powell', 'DE') else ['A2'])
+        else:
+            names = ['A1p'] if solver == 'Powell' else ['A1']
         for nm in names:
             lattice.append((solver, nm, full_calls, None))
         if th:
-            lattice.append((solver, 'A1', CALLS_T, 'savefreq'))       # every diamond in which SetSaveFrequency is a or b
+            if solver in ('NM', 'DE2'):   # (SetSaveFrequency is base-class code; a dump costs ~20 ms, so two solvers)
+                lattice.append((solver, 'A1', CALLS_T, 'savefreq'))   # every diamond in which SetSaveFrequency is a or b
             for nm in ('A4', 'A5'):
                 lattice.append((solver, nm, ('init', 'ranges', 'constraints', 'penalty', 'objective', 'limits'), None))
+    if not th:      # symbolic (tight=True) bounds are slow to build: a 4-call lattice on two solvers
+        for solver in ('NM', 'DE2'):
+            lattice.append((solver, 'A4', ('init', 'ranges', 'constraints', 'objective'), None))
     active_tab = {}
     for solver, nm, calls, only in lattice:
         v = dict(V[nm], solver=solver, dim=2)
@@ -921,8 +941,10 @@ def plan(ctx):
     for cfg in de2_cfgs(ctx):
         for mapkind in ('share', 'copy'):
             for nsteps, bound in bplan:
-                if th and mapkind == 'copy' and (cfg['name'] in ('B1', 'B5') or (nsteps == 4 and cfg['name'] != 'B2')):
-                    continue        # the copying map costs ~10x the sharing one: three configurations complete, one at 4 generations
+                if th and mapkind == 'copy' and (cfg['name'] in ('B1', 'B4', 'B5')) != (nsteps == 4):
+                    continue        # the copying map costs ~10x the sharing one: B2, B3 complete over 3 generations, the others at 4 generations with bound 2
+                if not th and mapkind == 'copy' and cfg['name'] == 'B2':
+                    bound = 1       # quick: the copying map gets the full bound on B3 only (a dill copy per work item is ~10x the cost)
                 for fix in _fixes(24, bound):
                     items.append(('B', (cfg, mapkind, nsteps, bound, fix)))
     info['B plan (generations, deviation bound; None = complete)'] = bplan
@@ -938,25 +960,28 @@ def plan(ctx):
                 # run to completion: one map call, every order, sharing and copying
                 for mapkind in ('share', 'copy'):
                     cplan.append((cfg, kind, nested, 'solve', mapkind, None, 0, [[c] for c in range(nf)] if nf > 6 else [[]]))
-                # step-wise modes, sharing map
-                if th:
-                    b = {'L21': 4, 'B3': 3, 'L22': 2}[kind]
-                else:
-                    b = {'L21': 3, 'B3': 2, 'L22': 1}[kind]
+                # step-wise modes, sharing map: every order per map call, deviation bound across the calls
                 for mode in ('solvestep', 'manual'):
-                    cplan.append((cfg, kind, nested, mode, 'share', b, 0, _fixes(nf, b)))
-                # step-wise modes, copying map (slow: dill copies the whole ensemble per work item)
-                if cfg['name'] == 'C1' or th:
                     if th:
-                        bc = {'L21': 3, 'B3': 2, 'L22': 1}[kind]
+                        b = {'L21': 4, 'B3': 3, 'L22': 2}[kind] if mode == 'manual' else {'L21': 4, 'B3': 2, 'L22': 1}[kind]
                     else:
-                        bc = {'L21': 2, 'B3': 1, 'L22': 0}[kind]
-                    if bc and (th or kind == 'L21' or nested == 'NM'):
-                        for mode in (('solvestep', 'manual') if th else (('manual',) if nested == 'NM' else ('solvestep',))):
+                        b = {'L21': 3, 'B3': 2 if mode == 'manual' else 1, 'L22': 1}[kind]
+                    cplan.append((cfg, kind, nested, mode, 'share', b, 0, _fixes(nf, b)))
+                # step-wise modes, copying map (slow: dill copies the whole ensemble for every work item)
+                if cfg['name'] in ('C1', 'C2') if th else cfg['name'] == 'C1':
+                    for mode in ('solvestep', 'manual'):
+                        if th:
+                            bc = {'L21': 3, 'B3': 2 if (nested, mode) == ('NM', 'manual') else 1, 'L22': 1 if mode == 'manual' else 0}[kind]
+                        else:
+                            pick = (mode == 'manual') == (nested == 'NM')
+                            bc = {'L21': 2 if pick else 0, 'B3': 1 if (nested, mode) == ('NM', 'manual') else 0, 'L22': 0}[kind]
+                        if bc:
                             cplan.append((cfg, kind, nested, mode, 'copy', bc, 0, _fixes(nf, bc)))
-                # real threads under the baton scheduler
-                mp = 2 if th else 1
-                cplan.append((cfg, kind, nested, 'solve', 'threads', None, mp, [[c] for c in range(n)]))
+                # real threads under the baton scheduler: Solve() with bounded preemptions at member-Step boundaries
+                mp = (2 if cfg['name'] in ('C1', 'C2') else 1) if th else 1
+                tf = [[c] for c in range(n)] if mp < 2 else [[c, d] for c in range(n) for d in range(n)]
+                if th or not (kind == 'L22' and cfg['name'] == 'C2' and nested == 'Powell'):    # quick: the slowest 600-schedule row is left to thorough
+                    cplan.append((cfg, kind, nested, 'solve', 'threads', None, mp, tf))
                 bt = 2 if th else 1
                 cplan.append((cfg, kind, nested, 'manual' if nested == 'NM' else 'solvestep', 'threads', bt, 1, _fixes(n, bt)))
     first = set()
@@ -1030,8 +1055,7 @@ def replay(case):
         compare_runs(v, tuple(case['seq1']), tuple(case['seq2']), case.get('mid'), T, 'A-replay', sf, None)
     elif part == 'B':
         cfg = case['cfg']
-        item = (cfg, case['mapkind'], case['nsteps'], 0, list(case['choices']))
-        # bound 0 below the fixed prefix: exactly the recorded schedule
+        # the whole recorded schedule is the fixed prefix, nothing is explored below it
         T = shard_de2((cfg, case['mapkind'], case['nsteps'], sum(1 for c in case['choices'] if c), list(case['choices'])))
     elif part == 'C':
         cfg = case['cfg']
